@@ -77,16 +77,59 @@ fn cfg_of(bits: u8) -> wal::Cfg {
     }
 }
 
+/// how the bytes reach the parser
+#[derive(Clone, Copy, Debug, PartialEq)]
+enum Entry {
+    ConfigParse,
+    ConfigParseFile,
+    ModuleFromFileWithConfig,
+    ModuleFromBufferWithConfig,
+}
+
 fn parse_counting(bytes: &[u8], cfg: wal::Cfg) -> Result<(Result<walrus::Module, String>, usize), Failure> {
+    parse_counting_via(bytes, cfg, 0, Entry::ConfigParse)
+}
+
+fn parse_counting_via(bytes: &[u8], cfg: wal::Cfg, hist: u8, entry: Entry) -> Result<(Result<walrus::Module, String>, usize), Failure> {
     let counter = Arc::new(AtomicUsize::new(0));
     let c2 = counter.clone();
-    let mut c = cfg.to_config();
+    let mut c = cfg.to_config_hist(hist);
     c.on_parse(move |_m, _ids| {
         c2.fetch_add(1, Ordering::SeqCst);
         Ok(())
     });
-    let r = wal::parse(bytes, &c)?;
+    let r = match entry {
+        Entry::ConfigParse => wal::parse(bytes, &c)?,
+        Entry::ModuleFromBufferWithConfig => {
+            crate::run::guard("parse", || walrus::Module::from_buffer_with_config(bytes, &c).map_err(|e| format!("{:#}", e)))?
+        }
+        Entry::ConfigParseFile | Entry::ModuleFromFileWithConfig => {
+            let path = std::env::temp_dir().join(format!(
+                "walrus-verif-c14-{}-{:?}.wasm",
+                std::process::id(),
+                std::thread::current().id()
+            ));
+            std::fs::write(&path, bytes).map_err(|e| Failure::new("infra:tempfile", e.to_string()))?;
+            let r = crate::run::guard("parse", || {
+                if entry == Entry::ConfigParseFile {
+                    c.parse_file(&path).map_err(|e| format!("{:#}", e))
+                } else {
+                    walrus::Module::from_file_with_config(&path, &c).map_err(|e| format!("{:#}", e))
+                }
+            });
+            let _ = std::fs::remove_file(&path);
+            r?
+        }
+    };
     Ok((r, counter.load(Ordering::SeqCst)))
+}
+
+/// a second, well-formed `name` section (module name only)
+fn second_name_section() -> Vec<u8> {
+    let payload = [&[4u8][..], b"name", &[0u8, 7, 6], b"second"].concat();
+    let mut s = vec![0u8, payload.len() as u8];
+    s.extend(payload);
+    s
 }
 
 pub fn check(_ctx: &Ctx, input: &Input) -> CaseResult {
@@ -122,6 +165,10 @@ pub fn check(_ctx: &Ctx, input: &Input) -> CaseResult {
                     b = with;
                 }
             }
+            if bytes.first().map(|b| b % 5 == 1).unwrap_or(false) {
+                b.extend(second_name_section());
+                out.label("input:extra-name-section");
+            }
             (b, p.origin)
         }
         Input::Wasm { origin, bytes } => (bytes.clone(), origin.clone()),
@@ -147,10 +194,19 @@ pub fn check(_ctx: &Ctx, input: &Input) -> CaseResult {
     }
     let in_prod = producers(&bytes);
 
+    // every other case reaches its configurations through a setter history
+    let case_hash = out.hash;
+    let hist_of = move |bits: u8| -> u8 {
+        if case_hash & 1 == 1 {
+            ((case_hash >> 8) as u8).wrapping_add(bits.wrapping_mul(7)) & 31
+        } else {
+            0
+        }
+    };
     let mut outputs: Vec<Option<Vec<u8>>> = Vec::new();
     for bits in 0u8..32 {
         let cfg = cfg_of(bits);
-        let (r, count) = parse_counting(&bytes, cfg)?;
+        let (r, count) = parse_counting_via(&bytes, cfg, hist_of(bits), Entry::ConfigParse)?;
         match r {
             Ok(mut m) => {
                 if count != 1 {
@@ -193,6 +249,44 @@ pub fn check(_ctx: &Ctx, input: &Input) -> CaseResult {
                 outputs.push(None);
             }
         }
+    }
+    // the other documented entry points: same verdict, same callback count,
+    // same output as ModuleConfig::parse with the same configuration
+    {
+        let bits = ((out.hash >> 16) % 32) as u8;
+        let cfg = cfg_of(bits);
+        for entry in [Entry::ConfigParseFile, Entry::ModuleFromFileWithConfig, Entry::ModuleFromBufferWithConfig] {
+            let (r, count) = parse_counting_via(&bytes, cfg, hist_of(bits), entry)?;
+            match r {
+                Ok(mut m) => {
+                    if count != 1 {
+                        return Err(Failure::new(
+                            "on_parse-count-after-ok",
+                            format!("{:?} succeeded but the on_parse callback ran {} times (config bits {:05b}) [{}]", entry, count, bits, origin),
+                        ));
+                    }
+                    if let Some(want) = outputs[bits as usize].as_ref() {
+                        if let Ok(got) = wal::emit(&mut m) {
+                            if &got != want {
+                                return Err(Failure::new(
+                                    "entry-point-changes-output",
+                                    format!("{:?} and ModuleConfig::parse give different output for config bits {:05b} [{}]", entry, bits, origin),
+                                ));
+                            }
+                        }
+                    }
+                }
+                Err(_) => {
+                    if count != 0 {
+                        return Err(Failure::new(
+                            "on_parse-ran-on-failed-parse",
+                            format!("{:?} failed but the on_parse callback ran {} times (config bits {:05b}) [{}]", entry, count, bits, origin),
+                        ));
+                    }
+                }
+            }
+        }
+        out.label("entry-points:file+buffer");
     }
     if !valid[0] {
         out.label("input:rejected");
